@@ -326,9 +326,18 @@ def generic_visit(ex, obj, cc, x, line):
         for i, r in enumerate(cc["generic_requires"]):
             ex.oblige("pre", f"generic_visit:requires[{i}]",
                       ex.to_bool(eval_spec_expr(ex, r, env)), line, note=r)
-    for exc, cond in cc.get("visit_raises", {}).items():
-        if ex.ctx.choose(2, [True, True]) == 1:
-            raise RaiseSig(exc, line)
+    if cc.get("generic_raises") is not None:
+        # raise condition of generic_visit stated over the node (some child raises)
+        for exc, cond in cc["generic_raises"].items():
+            cz = ex.to_bool(eval_spec_expr(ex, cond, env))
+            if ex.feasible(cz):
+                if ex.ctx.choose(2, [True, True]) == 1:
+                    ex.assume(cz)
+                    raise RaiseSig(exc, line)
+    else:
+        for exc, cond in cc.get("visit_raises", {}).items():
+            if ex.ctx.choose(2, [True, True]) == 1:
+                raise RaiseSig(exc, line)
     if base == "NodeTransformer":
         if isinstance(x, Z):
             ex.frame_write(x, "NodeTransformer.generic_visit (stores visited children in place)",
